@@ -4,7 +4,9 @@
 EXTENDS Integers, Sequences, TLC, Json
 CONSTANT Tier
 Names == {"x", "y", "z", "w"}
-Seqs == UNION {[1..n -> Names] : n \in 1..(IF Tier = "quick" THEN 2 ELSE 3)}
+(* (the driver samples the scenarios it runs: a universe of 84^4 scenarios with sequences of three texts could not even be   *)
+(* printed in the time the thorough tier has; four threads with one or two texts each are 160 000 scenarios)                   *)
+Seqs == UNION {[1..n -> Names] : n \in 1..2}
 VARIABLE sc
 Init == sc \in [1..(IF Tier = "quick" THEN 3 ELSE 4) -> Seqs]
 Next == UNCHANGED sc
